@@ -31,6 +31,9 @@ var fsPrimitives = map[string]string{
 	"os.OpenFile":                     "open", // refined by flag constant
 	"os.Rename":                       "rename",
 	"internal/fileutil.ReplaceFile":   "rename",
+	// module wrappers that rename a caller-supplied path over a caller-supplied destination
+	"pkg/api.replaceFile":                "rename",
+	"pkg/api.fileOperations.replaceFile": "rename",
 	"os.Remove":                       "remove",
 	"os.RemoveAll":                    "remove",
 	"internal/fileutil.RemoveFile":    "remove",
@@ -199,6 +202,11 @@ var c01AllowFS = map[string]fsAllow{
 	"pkg/api.(fileOperations).removeFile":      {"remove", "removes the stager's own temp/reserved file (tolerates not-exist)"},
 	"pkg/api.(fileOperations).replaceFile":     {"rename", "publishes the stager's temp over the destination"},
 	"pkg/api.createCertificateTransactionFile": {"temp", "certificate import staging file (hidden sibling temp)"},
+	"pkg/api.(stagedOutput).commit":             {"rename", "the publisher: renames the stager's own temp over the destination after close (C02.R2)"},
+	"pkg/api.replaceFile":                       {"rename", "package-level wrapper of the default operation table (no production caller; a new caller is reported)"},
+	"pkg/api.backupCertificateDestinations":     {"rename", "certificate import transaction: moves an existing destination into the transaction's backup name (C06)"},
+	"pkg/api.publishCertificateImports":         {"rename", "certificate import transaction: publishes the staged certificate files (C06)"},
+	"pkg/api.rollbackCertificateImports":        {"rename", "certificate import transaction: restores the backups (C06)"},
 	// --- cut / poster / ndown writer
 	"pkg/api.defaultCutOutputOperations": {"remove rename", "production operation table of the cut writer"},
 	"pkg/api.createCutTemporaryOutput":   {"create-excl", "creates the hidden sibling temp file with O_EXCL"},
